@@ -208,7 +208,25 @@ def r07_3(ctx, fns, txn_pub):
                     if diff_agg_variant(d) == "Clear":
                         clear_pubs.append(pblk)
             vclears = [mb for mb, mt, m in c05.values_mutations(b) if m == "clear"]
-            ok = bool(clear_pubs) and b.post_dominated_by(blk, clear_pubs) and bool(vclears) and (b.post_dominated_by(blk, vclears) or all(b.must_pass(0, blk, [v]) for v in vclears))
+            # .. except where the committed contents are known to be empty already: the wiped batch then takes "empty" to "empty"
+            def committed_empty(x):
+                for fct in conds.bare(conds.dominating_facts(b, x)):
+                    if fct[0] == "truth" and fct[2] is True and fct[1][0] == "call" and ecall_matches(fct[1], r"::is_empty$") and fct[1][3] and mentions_field(fct[1][3][0], "inner"):
+                        return True
+                return False
+            rets = set(b.return_blocks())
+            escaping = b.reachable_from(blk, avoid_blocks=clear_pubs) & rets if clear_pubs else rets
+            # every return that can be reached without recording a Clear lies behind the "committed contents are empty" edge
+            def only_via_empty(r_):
+                from .common import paths_between
+                for path in paths_between(b, blk, r_, limit=200):
+                    if any(pb in path for pb in clear_pubs):
+                        continue
+                    if not any(committed_empty(x) for x in path):
+                        return False
+                return True
+            pubs_ok = bool(clear_pubs) and (b.post_dominated_by(blk, clear_pubs) or all(only_via_empty(r_) for r_ in escaping))
+            ok = pubs_ok and bool(vclears) and (b.post_dominated_by(blk, vclears) or all(b.must_pass(0, blk, [v]) for v in vclears))
             ctx.verdict(ok, "R07.3", f, "discarded-diffs-replaced-by-Clear", where, "after batch.%s() every path records a Clear and the working copy is cleared" % t["callee"].split("::")[-1],
                         "`%s` discards the recorded diffs (batch.%s) but a following path does not record a `Clear` (with the working copy emptied): the committed batch no longer takes the pre-transaction state to the post-transaction state" % (f.path, t["callee"].split("::")[-1]))
     clear_guard(ctx, fns)
